@@ -78,7 +78,7 @@ macro "e_tac" : tactic => `(tactic| (
   (repeat' split at st)
   all_goals (first | (simp at st; done) | skip)
   all_goals (simp only [Option.some.injEq] at st; subst st)
-  all_goals (constructor <;> first | assumption | (simp only [upd, lockS, unlockS, newHelper, relocate, FreeObl, SetObl, OpObl, userCtx, nthr, cont_tgt, cont_inCall, cont_pub] at * <;>
+  all_goals (constructor <;> first | assumption | (simp only [upd, lockS, unlockS, newHelper, relocate, nestOn, csOn, nestOff, FreeObl, SetObl, OpObl, userCtx, nthr, cont_tgt, cont_inCall, cont_pub] at * <;>
     grind [upd, TOk, TPc.inCall, TPc.holds, TPc.tgt, TPc.publishing, LOp.pub, K.isUser, GK.inCall, K.holds, cont_tgt, cont_inCall, cont_pub, → tgt_holds, → tgt_inCall]))))
 
 theorem inve_rlock (c : Cfg) {s s' : State} (hA : InvA c s) (hB : InvB c s) (hD : InvD c s) (h : InvE c s) (t : _)
